@@ -413,8 +413,11 @@ def Spec.sigs (s : Spec) : List Sig :=
   | .ext => if s.popenThread then [.int, .tstp, .quit, .winch] else []
   | .unthr => []
 
-def installs (k : Nat) (ss : List Sig) : List CEv := ss.map (Ev.install k)
-def restores (k : Nat) (ss : List Sig) : List CEv := ss.map (Ev.restore k)
+/-- ... and only on the main thread (`xt.on_main_thread()`): elsewhere nothing is saved, so nothing is restored -/
+def Spec.hs (onMain : Bool) (s : Spec) : List Sig := if onMain then s.sigs else []
+
+def installs {ρ κ : Type} (k : κ) (ss : List Sig) : List (Ev ρ κ) := ss.map (Ev.install k)
+def restores {ρ κ : Type} (k : κ) (ss : List Sig) : List (Ev ρ κ) := ss.map (Ev.restore k)
 
 /-- what `spec.run` acquires besides handlers -/
 def spawn (s : Spec) : List CEv :=
@@ -439,13 +442,12 @@ structure Started where
 def start (onMain : Bool) : List Spec → Started
   | [] => ⟨[], [], false⟩
   | s :: rest =>
-    let hs := if onMain then s.sigs else []
     if s.kind == .ext && !s.found then
       -- PopenThread.__init__ swaps the handlers first and gives them back (`_clean_up`) when Popen raises
-      ⟨installs s.idx hs ++ restores s.idx hs ++ closeAll (s :: rest), [], true⟩
+      ⟨installs s.idx (s.hs onMain) ++ restores s.idx (s.hs onMain) ++ closeAll (s :: rest), [], true⟩
     else
       let r := start onMain rest
-      ⟨installs s.idx hs ++ spawn s ++ r.evs, s :: r.procs, r.failed⟩
+      ⟨installs s.idx (s.hs onMain) ++ spawn s ++ r.evs, s :: r.procs, r.failed⟩
 
 /-- `_close_prev_procs` for one earlier stage -/
 def closePrev (s : Spec) : List CEv := closeSpec s ++ reap s
@@ -455,8 +457,8 @@ def lastClose (specs : List Spec) : List CEv :=
   | some l => closeSpec l
   | none => []
 
-def restoreAll (procs : List Spec) : List CEv :=
-  procs.reverse.flatMap (fun s => restores s.idx s.sigs)
+def restoreAll (onMain : Bool) (procs : List Spec) : List CEv :=
+  procs.reverse.flatMap (fun s => restores s.idx (s.hs onMain))
 
 /-- all `_close_proc` does with the last proc itself: join it if it is a thread (a PopenThread has polled its child by then) -/
 def joinOnly (s : Spec) : List CEv :=
@@ -466,17 +468,17 @@ def joinOnly (s : Spec) : List CEv :=
   | .unthr => []
 
 /-- `end()`: iterraw's wait (skipped when the body is left early), then the `finally`: `_close_prev_procs`, `_close_proc` -/
-def finish (v : Variant) (aborts : Bool) (specs : List Spec) (st : Started) : List CEv :=
+def finish (v : Variant) (aborts onMain : Bool) (specs : List Spec) (st : Started) : List CEv :=
   if st.failed then
     (if v.teardown then st.procs else st.procs.dropLast).flatMap closePrev ++ lastClose specs
-      ++ (if v.lifo then restoreAll st.procs else [])
+      ++ (if v.lifo then restoreAll onMain st.procs else [])
   else
     match st.procs.getLast? with
     | none => []
     | some l =>
       st.procs.dropLast.flatMap closePrev
-        ++ (if aborts then joinOnly l else reap l ++ restores l.idx l.sigs) ++ closeSpec l
-        ++ (if v.lifo then restoreAll st.procs else [])
+        ++ (if aborts then joinOnly l else reap l ++ restores l.idx (l.hs onMain)) ++ closeSpec l
+        ++ (if v.lifo then restoreAll onMain st.procs else [])
 
 /-- `_run_specs`: which forms end the pipeline before the command returns (`!()` when its value is demanded) -/
 def endCalled (c : Cmd) : Bool :=
@@ -496,7 +498,7 @@ def command (v : Variant) (c : Cmd) : Run :=
   let p := cmdsToSpecs v c
   if p.why != .ok then ⟨p.evs, p.onRelease, p.why, false, []⟩ else
   let st := start c.onMain p.specs
-  ⟨p.evs ++ st.evs ++ (if endCalled c then finish v c.endAborts p.specs st else []), [], .ok, st.failed, st.procs⟩
+  ⟨p.evs ++ st.evs ++ (if endCalled c then finish v c.endAborts c.onMain p.specs st else []), [], .ok, st.failed, st.procs⟩
 
 def Run.all (r : Run) : List CEv := r.main ++ r.onRelease
 
